@@ -540,8 +540,8 @@ enc_harness!(enc_io, IO, 8, ref_io, |v| true, true, matches!(v, IO::I30));
 enc_harness!(enc_by, BY, 16, ref_by, |v| true, true, v.a >= 24);
 // @harness name=enc_to props=C08,C07 kind=complete note="C07 asserted outside the class of D5 (a == None)"
 enc_harness!(enc_to, TO, 16, ref_to, |v| true, v.a.is_some(), v.a.is_none());
-// @harness name=kf_d5_tagged_nil_len props=C07 kind=complete note="D5: TO { a: None, b }: 4 bytes written (82 c5 f6 f4/f5), cbor_len reports 3"
-enc_harness!(kf_d5_tagged_nil_len, TO, 16, ref_to, |v| v.a.is_none(), true, true);
+// @harness name=enc_to_tagged_nil_len props=C07 kind=complete note="D5: TO { a: None, b }: 4 bytes written (82 c5 f6 f4/f5), cbor_len reports 3"
+enc_harness!(enc_to_tagged_nil_len, TO, 16, ref_to, |v| v.a.is_none(), true, true);
 
 // ---- 24-field map struct with optional fields (D5: derived cbor_len sizes the map header from the declared field count) ----
 family! {
@@ -569,8 +569,8 @@ fn m24_len(all_present: bool) {
 }
 // @harness name=len_m24_all_present props=C07 kind=complete
 #[cfg(kani)] #[kani::proof] fn len_m24_all_present() { m24_len(true) }
-// @harness name=kf_d5_m24_len_only props=C07 kind=complete note="D5: M24 with f22 or f24 absent: header a0+n (1 byte) is written, cbor_len counts the 2-byte header of map(24)"
-#[cfg(kani)] #[kani::proof] fn kf_d5_m24_len_only() { m24_len(false) }
+// @harness name=enc_m24_absent_len props=C07 kind=complete note="D5: M24 with f22 or f24 absent: header a0+n (1 byte) is written, cbor_len counts the 2-byte header of map(24)"
+#[cfg(kani)] #[kani::proof] fn enc_m24_absent_len() { m24_len(false) }
 
 // ---------------------------------------------------------------------------------------------------------------------
 // C09, decode side: decode(ref_encode(v)) == v, exact consumption.  One harness per (presence mask, width classes);
